@@ -157,6 +157,10 @@ BuiltTags ==     \* evaluated on the unprimed state (build does not change it)
   \cup If(~SameButOffsets(ObsDefs, defs), "C12:built-data-differ-from-builder-state")
   \cup If(\E i \in (DOMAIN defs) \cap (DOMAIN ObsDefs) : defs[i].off # UNSET /\ ObsDefs[i].off # defs[i].off,
           "C03:offset-of-a-datum-on-the-built-definition-differs-from-its-offset-when-its-variant-was-closed")
+  \cup If(kind = "native" /\ e.variants = variants /\
+          \E v \in DOMAIN variants : \E i \in DOMAIN variants[v] :
+             e.voffs[v][i] # (IF defs[variants[v][i]].off = UNSET THEN 0 - 1 ELSE defs[variants[v][i]].off),
+          "C03:offset-looked-up-by-datum-id-on-the-built-definition-differs-from-the-offset-at-close")
   \cup If(\E i \in DOMAIN defs : i \in VariantIds /\ i \notin DOMAIN ObsDefs,
           "C03:datum-of-a-closed-variant-missing-from-the-built-definition")
   \cup LayoutTags
